@@ -85,6 +85,14 @@ type execOpts struct {
 	itemsSfx bool // suffix uses Items() instead of Range for caches
 }
 
+// seqDo performs one call of a sequential phase as a one-thread controlled run, so that a
+// self-deadlock or endless spin there is a reported failure instead of a hung process.
+func seqDo(api adapt.API, op *model.Op) (model.Res, *vs.Failure) {
+	var res model.Res
+	r := vs.Run(&vs.NonPreemptive{Order: []int{0}}, 3000000, func() { res = adapt.SafeDo(api, op) })
+	return res, r.Fail
+}
+
 // execute runs p under schedule s against a fresh container and checks it.
 func execute(p *Program, s *Sched, o execOpts) *Outcome {
 	out := &Outcome{Classes: map[string]bool{}}
@@ -118,12 +126,16 @@ func execute(p *Program, s *Sched, o execOpts) *Outcome {
 	}
 	if fill > 0 {
 		bs := model.Op{K: model.HBulkSet, Key: ColdBase, N: fill, Val: ColdVal, D: noexp}
-		if r := adapt.SafeDo(api, &bs); r.Panic != "" {
+		if r, f := seqDo(api, &bs); f != nil {
+			return viol("scheduler:"+f.Kind, f.Kind+":prefix", "filling the container did not terminate: "+f.Detail)
+		} else if r.Panic != "" {
 			return viol("panic", "panic-in-prefix", r.Panic)
 		}
 		if keep < fill {
 			bd := model.Op{K: model.HBulkDel, Key: ColdBase + keep, N: fill - keep}
-			if r := adapt.SafeDo(api, &bd); r.Panic != "" {
+			if r, f := seqDo(api, &bd); f != nil {
+				return viol("scheduler:"+f.Kind, f.Kind+":prefix", "emptying the container did not terminate: "+f.Detail)
+			} else if r.Panic != "" {
 				return viol("panic", "panic-in-prefix", r.Panic)
 			}
 		}
@@ -136,7 +148,12 @@ func execute(p *Program, s *Sched, o execOpts) *Outcome {
 		if op.K == model.HAdvance {
 			vs.NowNS += op.D
 		} else {
-			rec.Res = adapt.SafeDo(api, &op)
+			var f *vs.Failure
+			rec.Res, f = seqDo(api, &op)
+			if f != nil {
+				out.Recs = append(out.Recs, rec)
+				return viol("scheduler:"+f.Kind, f.Kind+":"+op.K.String(), fmt.Sprintf("sequential prefix call %s did not return: %s", op.String(), f.Detail))
+			}
 		}
 		rec.Ret = vs.Stamp()
 		rec.Done = true
@@ -209,9 +226,15 @@ func execute(p *Program, s *Sched, o execOpts) *Outcome {
 	if o.itemsSfx && p.Spec.IsCache() {
 		kRange = model.CItems
 	}
+	var sfxFail *vs.Failure
+	var sfxOp model.Op
 	sfx := func(op model.Op) *Rec {
 		rec := Rec{Op: op, Thread: -2, Inv: vs.Stamp()}
-		rec.Res = adapt.SafeDo(api, &op)
+		var f *vs.Failure
+		rec.Res, f = seqDo(api, &op)
+		if f != nil && sfxFail == nil {
+			sfxFail, sfxOp = f, op
+		}
 		rec.Ret = vs.Stamp()
 		rec.Done = true
 		out.Recs = append(out.Recs, rec)
@@ -228,7 +251,13 @@ func execute(p *Program, s *Sched, o execOpts) *Outcome {
 	coldHits, coldWrong := 0, 0
 	if p.keepEff() > 0 {
 		bg := model.Op{K: model.HBulkGet, Key: ColdBase, N: p.keepEff()}
-		r := adapt.SafeDo(api, &bg)
+		r, f := seqDo(api, &bg)
+		if f != nil && sfxFail == nil {
+			sfxFail, sfxOp = f, bg
+		}
+		if sfxFail != nil {
+			return viol("scheduler:"+sfxFail.Kind, sfxFail.Kind+":quiescent-"+sfxOp.K.String(), fmt.Sprintf("quiescent read-back call %s did not return (a lock was left held?): %s", sfxOp.String(), sfxFail.Detail))
+		}
 		if r.Panic != "" {
 			return viol("panic", "panic-in-suffix", r.Panic)
 		}
@@ -254,6 +283,9 @@ func execute(p *Program, s *Sched, o execOpts) *Outcome {
 		rec := Rec{Op: model.Op{K: model.PColdLoad}, Res: model.Res{T: obs}, Thread: -2, Inv: vs.Stamp(), Done: true}
 		rec.Ret = vs.Stamp()
 		out.Recs = append(out.Recs, rec)
+	}
+	if sfxFail != nil {
+		return viol("scheduler:"+sfxFail.Kind, sfxFail.Kind+":quiescent-"+sfxOp.K.String(), fmt.Sprintf("quiescent read-back call %s did not return (a lock was left held?): %s", sfxOp.String(), sfxFail.Detail))
 	}
 	if stray := adapt.Stray(api); len(stray) > 0 {
 		return viol("direct", "stray-callback", fmt.Sprintf("evicted callback fired outside any call: %v", stray))
